@@ -180,7 +180,8 @@ def handle : List String → String
   | "model" :: ss =>
     match ss.mapM parseSeg with
     | some segs =>
-      showLogical (dump (mergeModel segs)) ++ "/" ++ showNatList ((mergedTerms segs).map (·.2.1))
+      showLogical (dump (mergeModel (mergeReaders segs))) ++ "/" ++
+        showNatList ((mergedTerms (mergeReaders segs)).map (·.2.1))
     | none => "bad-op"
   | "table" :: ss =>
     match ss.mapM parseSeg with
